@@ -63,3 +63,6 @@ func goid() int64 {
 
 // FastGoid reports whether the fast goroutine-id path is active (for the self-test).
 func FastGoid() bool { return goidOff != 0 }
+
+// GoID returns the id of the calling goroutine.
+func GoID() int64 { return goid() }
